@@ -30,6 +30,9 @@ sys.setrecursionlimit(20000)
 
 _top_counter = itertools.count()
 
+NONDET_CRATES = ("rand", "rand_core", "getrandom", "rand_chacha")
+NONDET_PREFIXES = ("std::time::", "std::env::", "std::process::id", "std::thread::current", "rand::")
+
 
 def TOP(tag="?"):
     return ("top", tag, next(_top_counter))
@@ -1225,7 +1228,13 @@ class Interp:
                     self.havoc(path, a[1], name)
                 elif a[0] == "ref" and a[1][0][0] in ("H", "D") and a[1][1]:
                     path.events.append(("refcall", name, a[1], nargs, F.site_str(frame.body, t["sp"])))
-        val = ("ret", name, nargs, path.ver if any(self.touches_heap(a) for a in args) else 0)
+        krate = t["f"].get("krate") or ""
+        if krate in NONDET_CRATES or name.startswith(NONDET_PREFIXES):
+            # nondeterministic sources: every call yields a fresh value (A11)
+            val = ("ret", name, nargs, ("fresh", next(_top_counter)))
+            path.events.append(("nondet", name, F.site_str(frame.body, t["sp"])))
+        else:
+            val = ("ret", name, nargs, path.ver if any(self.touches_heap(a) for a in args) else 0)
         dty = self.place_ty(frame, t["dest"])
         tb = ty_bits(dty) if dty is not None else None
         if tb:
@@ -1245,7 +1254,9 @@ class Interp:
                 return v
             if a[1][0][0] == "L":
                 return v
-            return ("refto", a[1][0][1] if a[1][0][0] == "H" else "?", a[1][1])
+            if a[1][0][0] == "D":
+                return v
+            return ("refto", a[1][0][1], a[1][1])
         return a
 
     def havoc(self, path, loc, why):
